@@ -2,8 +2,9 @@
 # (one per flavour) plus the verification harnesses.  Every check command runs
 # `make -C /verif <targets>` first, so edits under /repo are always picked up
 # (dependency tracking through -MMD).
+VDIR   := $(patsubst %/,%,$(dir $(abspath $(lastword $(MAKEFILE_LIST)))))
 REPO   ?= /repo
-B      ?= /verif/.build
+B      ?= $(VDIR)/.build
 CFG    := $(B)/cfg
 CC     := clang
 CXX    := clang++
@@ -16,7 +17,7 @@ ASANF  := -O1 $(COMMON) -fsanitize=address,undefined -fno-sanitize-recover=undef
 TSANF  := -O1 $(COMMON) -fsanitize=thread
 PLAINF := -O2 $(COMMON)
 
-HSRC   := /verif/harness
+HSRC   := $(VDIR)/harness
 
 define flavour
 $(1)_OBJS := $$(patsubst $(REPO)/src/lib/%.c,$(B)/$(1)/lib/%.o,$(SRCS))
@@ -47,7 +48,7 @@ HXX_TSAN := $(CXX) -std=c++17 $(TSANF) $(DEFS) $(HARNESS_INC) -Wno-deprecated-de
 HCC_ASAN := $(CC) $(ASANF) $(DEFS) $(HARNESS_INC)
 HCC_PLAIN := $(CC) $(PLAINF) $(DEFS) $(HARNESS_INC)
 
--include /verif/harness/targets.mk
+-include $(VDIR)/harness/targets.mk
 
 .PHONY: cfg clean
 clean:
